@@ -60,9 +60,36 @@ func (vc *VC) runHints(fr *Frame, st *State, reach string, hints []*Hint, env *E
 		case "unfold":
 			g := vc.safeTr(fr, func() string { return e.hintFormula(h.E, true) }, h.Src)
 			vc.assumeG(reach, g)
-		case "use":
+		case "use", "useif":
 			g := vc.safeTr(fr, func() string { return e.useLemma(fr, reach, h, where) }, h.Src)
 			vc.assumeG(reach, g)
+		case "let":
+			// a named abbreviation: a fresh constant equal to the expression's current value
+			var v Val
+			okv := true
+			func() {
+				defer func() {
+					if r := recover(); r != nil {
+						if se, is := r.(specErr); is {
+							vc.specErrors = append(vc.specErrors, fmt.Sprintf("%s: let %s: %s", vc.unit, h.Name, se.msg))
+							okv = false
+							return
+						}
+						panic(r)
+					}
+				}()
+				v = e.trVal(h.E)
+			}()
+			if okv && v.S != "" {
+				v.S = vc.define("let_"+h.Name, vc.S.tySort(v.ty()), v.S)
+				if env.names == nil {
+					env.names = map[string]Val{}
+				}
+				env.names[h.Name] = v
+				if fr != nil {
+					fr.names[h.Name] = v
+				}
+			}
 		case "set":
 			t := vc.safeTr(fr, func() string { s, _ := e.tr(h.E); return s }, h.Src)
 			gv := vc.P.ghosts[h.Name]
@@ -191,10 +218,13 @@ func (e *Env) useLemma(fr *Frame, reach string, h *Hint, where string) string {
 	} else if len(enss) > 1 {
 		ens = "(and " + strings.Join(enss, " ") + ")"
 	}
-	if len(decl) > 0 {
+	if len(decl) > 0 || h.Kind == "useif" {
 		body := ens
 		if len(reqs) > 0 {
 			body = "(=> (and " + strings.Join(reqs, " ") + " true) " + ens + ")"
+		}
+		if len(decl) == 0 {
+			return body
 		}
 		return "(forall (" + strings.Join(decl, " ") + ") " + body + ")"
 	}
@@ -417,6 +447,10 @@ func (vc *VC) frameCheck(fr *Frame, st *State, reach string, a *Addr, in ssa.Ins
 
 func (vc *VC) allowedWrite(top *Frame, heap, ref string) string {
 	alts := []string{"(>= " + ref + " " + top.entry.alloc + ")"}
+	if strings.HasPrefix(heap, "A:") {
+		// array object 0 is the backing array of nil slices: it has no elements, nothing can be written to it
+		alts = append(alts, "(= "+ref+" 0)")
+	}
 	for _, m := range top.modTargets {
 		if m.heap != heap {
 			continue
@@ -690,6 +724,7 @@ func (vc *VC) execCall(fr *Frame, st *State, reach string, instr ssa.Instruction
 		what = "dyncall"
 	}
 	vc.ghostPoint(fr, st, reach, "before", what, n, key)
+	fr.callPre = st.clone()
 	var res Val
 	variant := ""
 	top := fr.topFrame()
@@ -973,7 +1008,12 @@ func (vc *VC) applySpec(fr *Frame, st *State, reach string, spec *FuncSpec, call
 				// element sort: strip "(Array Int " prefix
 				es := strings.TrimSuffix(strings.TrimPrefix(srt, "(Array Int "), ")")
 				nv := vc.fresh("m_"+mangle(t.heap), es)
-				vc.setHeap(st, t.heap, "(store "+h+" "+t.ref+" "+nv+")")
+				if strings.HasPrefix(t.heap, "A:") {
+					// the (empty) backing array of a nil slice cannot be written
+					vc.setHeap(st, t.heap, "(ite (= "+t.ref+" 0) "+h+" (store "+h+" "+t.ref+" "+nv+"))")
+				} else {
+					vc.setHeap(st, t.heap, "(store "+h+" "+t.ref+" "+nv+")")
+				}
 			}
 		}
 		if !spec.Pure {
